@@ -11,6 +11,14 @@ use std::sync::atomic::Ordering;
 use std::time::Instant;
 
 /// (LZMA2 stream bytes, plaintext) for a payload kind and a wanted `len % 4` of the compressed data.
+/// A stored payload of exactly `n` plaintext bytes (n may be 0: the LZMA2 stream is then just the end byte).
+pub fn stored_payload(n: usize, salt: usize) -> (Vec<u8>, Vec<u8>) {
+    let data: Vec<u8> = (0..n).map(|i| (i * 131 + salt * 7) as u8).collect();
+    let cs: Vec<Chunk> = data.chunks(65536).enumerate().map(|(k, c)| Chunk::U { reset: k == 0, data: c.to_vec() }).collect();
+    let w = lzma2::write(&cs);
+    (w.bytes, w.expect)
+}
+
 pub fn payload(kind: usize, residue: usize, salt: usize) -> (Vec<u8>, Vec<u8>) {
     for extra in 0..64usize {
         let n = 3 + salt % 5 + extra;
@@ -164,6 +172,47 @@ pub fn run(tier: Tier) -> i32 {
                 check_file(&ctx, &f, &format!("xz file with per-block header kinds {:?} (csize field, usize field, extra padding/4), check {}", seq.iter().map(|&k| kinds[k]).collect::<Vec<_>>(), check));
             });
             ctx.scope_done(name, total * 3, t0, "every sequence of <= 3 blocks over 7 header kinds (sizes 12..1012 bytes, shrinking and growing)");
+        }
+    }
+    // ---------------------------------------------------------------- block content lengths that change the width of the size fields
+    // (so that the block header has 0, 1, 2 or 3 padding bytes) and empty block contents, with every check type
+    {
+        let name = "size-field-widths-and-empty-blocks";
+        if ctx.may_start(name) {
+            let t0 = Instant::now();
+            let lens: Vec<usize> = vec![0, 1, 2, 120, 123, 124, 126, 127, 128, 130, 16379, 16380, 16383, 16384, 16390];
+            let mut items = Vec::new();
+            for &a in &lens {
+                for &b in &[0usize, 5, 126, 16383] {
+                    for check in [0u8, 1, 4] {
+                        for (cs, us) in [(false, false), (true, false), (false, true), (true, true)] {
+                            items.push((a, b, check, cs, us));
+                        }
+                    }
+                }
+            }
+            let pads = std::sync::Mutex::new(std::collections::BTreeSet::new());
+            par_for(items.len() as u64, |i| {
+                let (a, b, check, cs, us) = items[i as usize];
+                let blocks: Vec<Block> = [a, b]
+                    .iter()
+                    .enumerate()
+                    .map(|(k, &n)| {
+                        let (p, plain) = stored_payload(n, k + i as usize % 5);
+                        Block { payload: p, plain, with_csize: cs, with_usize: us, ..Default::default() }
+                    })
+                    .collect();
+                let f = XzFile { check_id: check, blocks, ..Default::default() };
+                let (_, spans) = xz::build(&f);
+                for s in spans.iter().filter(|s| s.0.ends_with("header_pad")) {
+                    pads.lock().unwrap().insert(s.2 - s.1);
+                }
+                ctx.eval(1);
+                ctx.nontriv(1);
+                check_file(&ctx, &f, &format!("xz file with blocks of {} and {} content bytes, check {}, csize field {}, usize field {}", a, b, check, cs, us));
+            });
+            ctx.set_extra("block_header_padding_lengths_covered", json!(pads.lock().unwrap().iter().collect::<Vec<_>>()));
+            ctx.scope_done(name, items.len() as u64, t0, "content lengths around the 7-bit boundaries of both size fields, incl. empty blocks");
         }
     }
     // ---------------------------------------------------------------- every legal LZMA2 dictionary-size property byte
